@@ -2,7 +2,9 @@
 
 A. Coq: Props/C05.v — block assembly = chunk bs plain for EVERY contract-abiding decoder (gz, bz2,
    tar member), short/long declared sizes, xz slicing, tar member addressing, drain loop;
-   lz4 single-read assembly refuted.
+   lz4 single-read assembly refuted.  WP-J: what BlockReader::new derives itself (gzip header / trailer,
+   bz2 / lz4 pre-pass, xz header bytes + decode loop, tar entry selection, mtime rule) against the
+   format encoders of Spec/ContainersSpec.v — see checks/c05_glue.py for its B and C runs.
 B. BlockReader::read_block (in-process, harness c05) on real .gz/.bz2/.lz4/.xz/.tar files written
    here from the same plain bytes vs the Coq model (Corr/C05.v model_bad).
 C. failing-input search against the property itself:
@@ -987,7 +989,7 @@ def ref_path(runs, lab):
 # ----------------------------------------------------------------------------- entry points
 def run(ctx):
     quick = ctx.quick()
-    vlib.proof_stage(ctx, PROP_FILE, [], extra_targets=["Corr/C05.vo"])
+    vlib.proof_stage(ctx, PROP_FILE, [], extra_targets=["Corr/C05.vo", "Corr/C05c.vo"])
     ok, log = vlib.build_harness("c05")
     if not ok:
         ctx.obligation_broken("build", "harness c05", log)
@@ -1003,7 +1005,14 @@ def run(ctx):
     cov.update(run_blocks(ctx, scratch, quick))
     t1 = time.time()
     cov.update(e2e(ctx, scratch, quick))
-    cov["phase_seconds"] = dict(blocks=round(t1 - t0, 1), end_to_end=round(time.time() - t1, 1))
+    t2 = time.time()
+    # WP-J: the container handling s4 does itself (BlockReader::new, process_path_tar, decompress_to_ntf)
+    import c05_glue
+    gscratch = os.path.join(scratch, "glue")
+    os.makedirs(gscratch, exist_ok=True)
+    cov.update(c05_glue.run(ctx, gscratch, quick))
+    cov.update(c05_glue.e2e(ctx, gscratch, quick))
+    cov["phase_seconds"] = dict(blocks=round(t1 - t0, 1), end_to_end=round(t2 - t1, 1), container_glue=round(time.time() - t2, 1))
     order, seen_lv = [], {}
     for f in ctx.failures:
         lv = f["case"].get("level")
@@ -1012,13 +1021,16 @@ def run(ctx):
     ctx.failures = [f for _, f in sorted(zip(order, ctx.failures), key=lambda t: t[0])]
     ctx.coverage.update(cov)
     ctx.coverage.update(
-        evaluations=cov.get("block_results_compared", 0) + cov.get("stdout_comparisons", 0),
+        evaluations=cov.get("block_results_compared", 0) + cov.get("stdout_comparisons", 0) + cov.get("glue_file_cases", 0) + cov.get("glue_tar_member_readers", 0)
+        + cov.get("glue_ntf_cases", 0) + cov.get("glue_stdout_runs", 0),
         distinct_nontrivial=cov.get("block_nontrivial", 0) + cov.get("stdout_nontrivial", 0),
         rule="block level: one case = (codec, block size, plain bytes, encoder parameters); every block index 0..last+1 read in ascending order with the production look-behind drop and again in random order with repeats with drop disabled, each result compared with the Coq model and with chunk bs plain; non-trivial = more than one block; distinct by (codec, bs, size, content prefix, parameters). end to end: one comparison = (payload, stored form, block size, window): stdout of the stored form vs stdout of the plain file; non-trivial = both non-empty and equal; distinct by (payload, form, arguments)",
         samples=[cov.get("block_sample")])
     ctx.assumptions += [
         "decoders (flate2, bzip2-rs, lz4_flex, lzma-rs, tar) are oracles: theorems assume only the read contract R1/R2 (prefix of the remaining plain stream, no longer than requested; empty only at end of stream); decoder correctness is sampled by B/C, not proved",
-        "declared size: gzip ISIZE (mod 2^32, single member), tar header size, measured pre-pass for bz2/lz4/xz; multi-member gzip, multi-stream xz and files over 4 GiB are outside the domain",
+        "declared size: gzip ISIZE (mod 2^32, single member), tar header size, measured pre-pass for bz2/lz4/xz — now derived inside the model from the file bytes (Model/Containers.v) and tied by the container-glue run; multi-member gzip, multi-stream xz (modelled, B only) and files over 4 GiB (arithmetic lemma) are outside the property's quantifier",
+        "the tar crate's entry list (entries / entries_with_seek: path as to_string_lossy, typeflag, entry.size(), header().size(), header().mtime(), data) is the oracle of the s4-side tar model; for archives without GNU/pax extension records it is also compared with the reference header parser tar_ref_list",
+        "container files are given the mtime 1600000000.123456789 so that 'mtime() = the file's own' is distinguishable from every header time used",
         "python zlib/bz2/lzma/tarfile and the lz4 frame writer in this file (stored and literal-only blocks; xxh32) and lz4_flex's FrameEncoder produce valid single-stream files",
         "stdout comparison uses --color never, TZ=UTC, default --tz-offset; exit status is not part of the property (plain files of <= 5 bytes are refused with status 1, their stored forms are read and print nothing with status 0)",
         "journal / evtx payloads go through decompress_to_ntf (model: drain loop); their readers are C09 / C10",
@@ -1049,6 +1061,10 @@ def replay(ctx, path):
                     bad += 1
             else:
                 print("replay: files of the failing run are gone; re-run ./check C05 with VERIF_SEED=%s" % r.get("seed"))
+                bad += 1
+        elif c.get("level") == "glue":
+            import c05_glue
+            if c05_glue.replay_case(c):
                 bad += 1
         elif c.get("level") == "block":
             p = c.get("path")
